@@ -69,6 +69,7 @@ def spec_position(s, kind, first):
 
 def table_rows(ex, tname):
     """C11 (totality), C12 (value + footprint + position), C20 (no writes, no aliasing) for one table"""
+    ex.contracts = {k: v for k, v in ex.contracts.items() if not k.endswith(".read")}   # rows are executed, not abstracted
     import contracts.sensor as cs
     rows = tables()[tname]
     i = ex.choose(len(rows), tag="row")
@@ -146,6 +147,7 @@ def table_rows(ex, tname):
 
 def single_read_rows(ex, tname):
     """C16: read_value on a response of exactly 2*ceil(size_/2) bytes equals the bulk read of the enclosing block"""
+    ex.contracts = {k: v for k, v in ex.contracts.items() if not k.endswith(".read")}   # rows are executed, not abstracted
     import contracts.sensor as cs
     rows = tables()[tname]
     i = ex.choose(len(rows), tag="row")
@@ -199,6 +201,7 @@ def single_read_rows(ex, tname):
 
 def derived_rows(ex, tname):
     """C13: every derived / label row agrees with the raw rows decoded from the same response"""
+    ex.contracts = {k: v for k, v in ex.contracts.items() if not k.endswith(".read")}   # rows are executed, not abstracted
     import contracts.sensor as cs
     import contracts.derived as cd
     rows = tables()[tname]
